@@ -1426,6 +1426,7 @@ def families(tier):
               'member', 'nonmember', 'single_edit_member',
               'single_edit_near_miss', 'op:drop', 'op:extra', 'op:rename',
               'op:value', 'bool_value', 'integral_float_for_integer',
+              'non_integral_float_for_integer',
               'int_for_float', 'nonfinite_value', 'str_for_numeric',
               'number_for_categorical', 'boundary_inside', 'boundary_outside',
               'kind_DOUBLE', 'kind_INTEGER', 'kind_DISCRETE',
